@@ -776,4 +776,58 @@ instance (s : Str) : Decidable (Clean s) := by unfold Clean; infer_instance
 instance (d : Dec) : Decidable (DecOk d) := by unfold DecOk; infer_instance
 instance (s : Str) : Decidable (TokOk s) := by unfold TokOk; infer_instance
 
+/-! ## files not written by pyTME: loop rows broken over lines, columns in another order, unknown columns -/
+
+/-- the pieces of one row are glued together as long as they fit -/
+theorem reuniteAux_pieces (n : Nat) (cur : List Str) (ps rest : List (List Str))
+    (h : cur.length + ps.flatten.length ≤ n) :
+    reuniteAux n cur (ps ++ rest) = reuniteAux n (cur ++ ps.flatten) rest := by
+  induction ps generalizing cur with
+  | nil => simp
+  | cons p ps ih =>
+    have h' : cur.length + (p.length + ps.flatten.length) ≤ n := by
+      simpa [List.flatten_cons, List.length_append] using h
+    have h1 : cur.length + p.length ≤ n := by omega
+    simp only [List.cons_append, reuniteAux, if_pos h1]
+    rw [ih (cur ++ p) (by simp only [List.length_append]; omega)]
+    simp [List.flatten_cons, List.append_assoc]
+
+/-- a complete row is closed by whatever non-empty piece follows -/
+theorem reuniteAux_full (n : Nat) (cur : List Str) (rest : List (List Str)) (hc : cur.length = n)
+    (hr : ∀ q ∈ rest, q ≠ []) : reuniteAux n cur rest = cur :: reunite n rest := by
+  cases rest with
+  | nil => simp [reuniteAux, reunite]
+  | cons q qs =>
+    have hq : 0 < q.length := List.length_pos_iff.mpr (hr q (List.mem_cons_self ..))
+    simp only [reuniteAux, reunite]
+    rw [if_neg (by omega)]
+
+/-- with distinct column names the order of the columns does not matter for a look-up -/
+theorem lookup_perm {t t' : Table} (hp : t.Perm t') (hn : (t.map (·.1)).Nodup) (k : Str) :
+    lookup t k = lookup t' k := by
+  unfold lookup
+  induction hp with
+  | nil => rfl
+  | cons x _ ih =>
+    simp only [List.map_cons, List.nodup_cons] at hn
+    simp only [List.find?_cons]
+    split
+    · rfl
+    · exact ih hn.2
+  | swap x y l =>
+    simp only [List.map_cons, List.nodup_cons, List.mem_cons, not_or] at hn
+    simp only [List.find?_cons]
+    by_cases hx : (x.1 == k) = true <;> by_cases hy : (y.1 == k) = true
+    · exact absurd ((beq_iff_eq.mp hy).trans (beq_iff_eq.mp hx).symm) hn.1.1
+    · simp [hx, hy]
+    · simp [hx, hy]
+    · simp [hx, hy]
+  | trans h1 _ ih1 ih2 =>
+    have hn2 := (List.Perm.nodup_iff (List.Perm.map _ h1)).mp hn
+    exact (ih1 hn).trans (ih2 hn2)
+
+theorem lookup_cons_ne (kv : Str × List Str) (t : Table) (k : Str) (h : kv.1 ≠ k) :
+    lookup (kv :: t) k = lookup t k := by
+  simp [lookup, h]
+
 end Pm.C09
